@@ -1725,3 +1725,58 @@ package raft
 //@   requires nonnil: r != nil && r.logger != nil
 //@   localonly
 //@   at call CommitTrackingLogStore.StageCommitIndex#1 assert stages_the_given_index_only_when_enabled: arg0 == commitIndex && r.RestoreCommittedLogs
+
+// ---------------------------------------------------------------------------
+// Conformance of the in-repo InmemStore with the assumed LogStore contract (has[i] = i in dom(logs),
+// ent[i] = *logs[i]). Only the entry map is covered: FirstIndex/LastIndex of InmemStore are exact only for
+// logs that are appended in increasing order, which is how raft uses them (not claimed here).
+
+//@ spec func inmemInv(i *InmemStore) bool = forall k uint64 :: dom(i.logs, k) ==> i.logs[k] != nil && i.logs[k].Index == k
+
+//@ func (i *InmemStore) GetLog
+//@   requires nonnil: i != nil && log != nil
+//@   requires inv: inmemInv(i)
+//@   requires noalias: forall k uint64 :: dom(i.logs, k) ==> i.logs[k] != log
+//@   modifies *log
+//@   ensures  found: result == nil ==> dom(i.logs, index) && *log == *i.logs[index] && log.Index == index
+//@   ensures  notfound: !dom(i.logs, index) ==> result != nil
+//@   ensures  found_whenever_present: dom(i.logs, index) ==> result == nil
+
+//@ func (i *InmemStore) StoreLogs
+//@   requires nonnil: i != nil && i.logs != nil && (forall k int :: 0 <= k && k < len(logs) ==> logs[k] != nil)
+//@   requires inv: inmemInv(i)
+//@   requires distinct: forall a int, b int :: 0 <= a && a < b && b < len(logs) ==> logs[a].Index != logs[b].Index
+//@   modifies i.logs[*], i.lowIndex, i.highIndex
+//@   ensures  never_fails: result == nil
+//@   ensures  stored: forall k int :: 0 <= k && k < len(logs) ==> dom(i.logs, logs[k].Index) && i.logs[logs[k].Index] == logs[k]
+//@   ensures  others: forall x uint64 :: (forall k int :: 0 <= k && k < len(logs) ==> logs[k].Index != x) ==> dom(i.logs, x) == old(dom(i.logs, x)) && i.logs[x] == old(i.logs[x])
+//@   ensures  inv: inmemInv(i)
+//@   loop 1 invariant stored_so_far: forall k int :: 0 <= k && k < #i ==> dom(i.logs, logs[k].Index) && i.logs[logs[k].Index] == logs[k]
+//@   loop 1 invariant others_so_far: forall x uint64 :: (forall k int :: 0 <= k && k < #i ==> logs[k].Index != x) ==> dom(i.logs, x) == old(dom(i.logs, x)) && i.logs[x] == old(i.logs[x])
+//@   loop 1 invariant inv: inmemInv(i)
+
+//@ func (i *InmemStore) SetUint64
+//@   requires nonnil: i != nil && i.kvInt != nil
+//@   modifies i.kvInt[*]
+//@   ensures  ok: result == nil && dom(i.kvInt, content(key)) && i.kvInt[content(key)] == val
+//@   ensures  others: forall k string :: k != content(key) ==> dom(i.kvInt, k) == old(dom(i.kvInt, k)) && i.kvInt[k] == old(i.kvInt[k])
+
+//@ func (i *InmemStore) GetUint64
+//@   requires nonnil: i != nil
+//@   modifies nothing
+//@   ensures  found: dom(i.kvInt, content(key)) ==> result1 == nil && result0 == i.kvInt[content(key)]
+//@   ensures  absent: !dom(i.kvInt, content(key)) ==> result0 == 0 && result1 == nil
+
+//@ func (i *InmemStore) DeleteRange
+//@   requires nonnil: i != nil && i.logs != nil
+//@   requires inv: inmemInv(i)
+//@   requires terminates: max < MaxUint64
+//@   modifies i.logs[*], i.lowIndex, i.highIndex
+//@   ensures  never_fails: result == nil
+//@   ensures  range_deleted: forall x uint64 :: min <= x && x <= max ==> !dom(i.logs, x)
+//@   ensures  outside_untouched: forall x uint64 :: !(min <= x && x <= max) ==> dom(i.logs, x) == old(dom(i.logs, x))
+//@   ensures  kept: forall x uint64 :: dom(i.logs, x) ==> i.logs[x] == old(i.logs[x])
+//@   ensures  inv: inmemInv(i)
+//@   loop 1 invariant progress: j >= min && (min <= max ==> j <= max + 1) && (min > max ==> j == min)
+//@   loop 1 invariant deleted_so_far: forall x uint64 :: dom(i.logs, x) == (old(dom(i.logs, x)) && !(min <= x && x < j))
+//@   loop 1 invariant kept_so_far: forall x uint64 :: dom(i.logs, x) ==> i.logs[x] == old(i.logs[x])
